@@ -121,6 +121,9 @@ pub fn check_arith(c: &ArithCase) -> Verdict {
     }
     match &inc {
         Out::Ok(v) if *v == want_succ => {}
+        // a key with more leaves than the 64-bit counter can address, at counter 2^64-1: the
+        // property only demands "no arithmetic failure" here - wiping and refusing to advance are both fine
+        Out::Ok(v) if tall && c.counter == u64::MAX && (*v == blob || v[..8] == blob[..8]) => {}
         o => {
             let kind = if c.counter >= last { "at-last-leaf" } else { "below-last-leaf" };
             return fail(format!("successor {} {}", kind, if tall { "total>=64" } else { "total<=63" }), format!("successor of counter {} for heights {:?} is {:?}, expected {}", c.counter, c.heights, o.clone().ok().map(|v| gen::hex(&v)), gen::hex(&want_succ)));
